@@ -236,10 +236,14 @@ func Cyclomatic(g *rg.G) int {
 // Budget bounds the work of the exponential counters: a counter gives up
 // (ok == false) after Steps elementary extensions.  It is a step count, not a
 // clock, so the outcome is deterministic.
-type Budget struct{ Steps int64 }
+type Budget struct {
+	Steps int64 // remaining
+	Used  int64
+}
 
 func (b *Budget) spend() bool {
 	b.Steps--
+	b.Used++
 	return b.Steps >= 0
 }
 
